@@ -1,6 +1,7 @@
 import Rl4co.Core.Proto
 import Rl4co.Env.Mdcpdp
 import Rl4co.Spec.Mdcpdp
+import Rl4co.Spec.MdcpdpAdmits
 namespace Rl4co.Driver.Mdcpdp
 open Rl4co.Proto
 open Rl4co.Mdcpdp
@@ -55,7 +56,7 @@ def episode (toks : List String) : Option String := do
     | .minsum => Rl4co.Spec.Mdcpdp.objMinsum p v as
     | .lateness => Rl4co.Spec.Mdcpdp.objLateness p v as
   let vd := Rl4co.Spec.Mdcpdp.verdict p {} as
-  pure s!"masks={masks} done={dn} adm={bit (admittedAlong i sts as)} len={lensTr} carry={carryTr} dep={depTr} arr={intsStr ((List.range i.N).map fin.arrive)} reward={reward mode i fin} rnp={reward mode i firstDone} feas={bit (vd == 0)} why={vd} vnohome={Rl4co.Spec.Mdcpdp.verdict p { home := false } as} vcap0={Rl4co.Spec.Mdcpdp.verdict p { home := false, ownCap := false } as} obj={obj {}} objA={obj { chargeLast := false }} objB={obj { home := false, ownCap := false, perVehicle := false }} objAB={obj { home := false, ownCap := false, perVehicle := false, chargeLast := false }} objopen={Rl4co.Spec.Mdcpdp.openLength p 0 as} bound={i.N + i.K - 1}"
+  pure s!"masks={masks} done={dn} adm={bit (admittedAlong i sts as)} len={lensTr} carry={carryTr} dep={depTr} arr={intsStr ((List.range i.N).map fin.arrive)} reward={reward mode i fin} rnp={reward mode i firstDone} feas={bit (vd == 0)} why={vd} vnohome={Rl4co.Spec.Mdcpdp.verdict p { home := false } as} vcap0={Rl4co.Spec.Mdcpdp.verdict p { home := false, ownCap := false } as} obj={obj {}} objA={obj { chargeLast := false }} objB={obj { home := false, ownCap := false, perVehicle := false }} objAB={obj { home := false, ownCap := false, perVehicle := false, chargeLast := false }} admits={bit (Rl4co.Spec.Mdcpdp.admitsAll p {} as)} objopen={Rl4co.Spec.Mdcpdp.openLength p 0 as} bound={i.N + i.K - 1}"
 
 def handlers : List (String × (List String → Option String)) :=
   [("mdcpdp.episode", episode)]
